@@ -63,8 +63,12 @@ def create_single_letter_matches(plain, cmdline):
             if beg <= m.start(0) < end:
                 return True
         return False
+    def letter(m):
+        #   [^\W0-9_] also matches non-ASCII digits and numerics like '¼'
+        return m.group(0).isalpha()
     single = r'\b[^\W0-9_]\b'
-    return list(msg(m) for m in re.finditer(single, plain) if not f(m))
+    return list(msg(m) for m in re.finditer(single, plain)
+                                        if letter(m) and not f(m))
 
 #   create error messages for problem with equation punctuation
 #
